@@ -128,7 +128,7 @@ def all_cases(tier):
     # visibility table: name shape x parent kind x __all__ declared/listed x imported
     for n in VIS_NAMES:
         for parent in ("module", "class"):
-            for allmode in ("none", "listed", "not-listed"):
+            for allmode in ("none", "listed", "not-listed", "empty"):
                 for how in ("def", "assign", "import", "import-then-def"):
                     if parent == "class" and allmode != "none":
                         continue
@@ -397,6 +397,8 @@ def build(case):
             ind = 1
         if allmode == "listed":
             r.emit(f'__all__ = ["{n}"]', 0)
+        elif allmode == "empty":
+            r.emit("__all__ = []", 0)  # declared, and lists nothing: every object of the module is private
         elif allmode == "not-listed":
             r.emit('__all__ = ["other"]', 0)
         if how in ("import", "import-then-def"):
